@@ -1,4 +1,5 @@
 """C16 — Interaction constructors validate and classify exactly."""
+from checks import big_scale
 from checks import pure_fns
 LEAN_TARGETS = ["QmcProps.C16", "drv_c16", "QmcProofs.PureFnsAgree"]
 BINS = ["c16"]
@@ -49,4 +50,5 @@ def main(ck):
         cases = ck.harness("c16", ["all"])
         ck.correspond("interaction-constructors", "drv_c16", cases)
         ck.correspond("tolerance-witness", "drv_c16", ck.harness("c16", ["tolwit"]))   # known finding F23
+    big_scale.run(ck, "manyvars")   # large-scale regime (>65536 bonds/ops/slots, release semantics): model-free oracles of the property statements
     return ck.finish(RULE)
